@@ -1,6 +1,7 @@
 CONSTANTS
   MaxN = 3
   Kinds <- KindsDef
+  DUP = FALSE
   SFlaws <- SFlawsAll
 SPECIFICATION Spec
 INVARIANT Emit
